@@ -139,15 +139,15 @@ def h_filters(flags, nm, nd=None):
     return run
 
 
-def h_models(flags, nm, nd=None):
+def h_models(flags, nm, nd=None, only_perms=None):
     def run(part):
         std_assumptions(part)
-        part.bounds = {'invariance': 'model permutation (all %d!)' % nm, 'filters': len(flags), 'models': nm, 'distances': nd,
+        part.bounds = {'invariance': 'model permutation (all %d!)' % nm if only_perms is None else 'model permutations %s' % (only_perms,), 'filters': len(flags), 'models': nm, 'distances': nd,
                        'flags': ''.join(map(str, flags))}
         fx = fitfix.Fit()
         ex = C.Explorer(query_timeout_ms=60000)
         cl = R.Claims(part, ex, ID)
-        perms = [p for p in itertools.permutations(range(nm)) if p != tuple(range(nm))]
+        perms = [p for p in itertools.permutations(range(nm)) if p != tuple(range(nm))] if only_perms is None else list(only_perms)
 
         cur = [None]
 
@@ -392,9 +392,11 @@ def configs(tier, seed):
         cfgs.append(Config('I1 filters 2-D nm=%d flags=%s' % (nm, ''.join(map(str, flags))), h_filters(flags, nm), 3000))
     for flags, nm, nd in ([((4, 1), 1, 2), ((1, 2, 4), 1, 2)] if q else [((4, 1), 1, 2), ((1, 2, 4), 1, 2), ((4, 1), 2, 2), ((4, 1, 1), 1, 3)]):
         cfgs.append(Config('I1 filters 3-D nm=%d nd=%d flags=%s' % (nm, nd, ''.join(map(str, flags))), h_filters(flags, nm, nd), 3000))
-    for flags, nm in ([((1, 4), 2), ((4, 2, 1), 2), ((1, 4), 3)] if q else [((1, 4), 2), ((4, 2, 1), 2), ((1, 4), 3), ((4, 4, 3), 3), ((1, 4), 4)]):
+    for flags, nm in ([((1, 4), 2), ((4, 2, 1), 2), ((1, 4), 3)] if q else [((1, 4), 2), ((4, 2, 1), 2), ((1, 4), 3), ((4, 4, 3), 3)]):
         cfgs.append(Config('I2 models 2-D nm=%d flags=%s' % (nm, ''.join(map(str, flags))), h_models(flags, nm), 3000))
     cfgs.append(Config('I2 models 3-D nm=2 nd=2 flags=41', h_models((4, 1), 2, 2), 3000))
+    if not q:
+        cfgs.append(Config('I2 models 2-D nm=4 flags=14 (reversal and one 4-cycle)', h_models((1, 4), 4, only_perms=[(3, 2, 1, 0), (1, 2, 3, 0)]), 6000))
     for flags, nm in ([((1, 1), 1), ((1, 4, 1), 1), ((1, 2, 1), 1), ((1, 1), 2)] if q else
                       [((1, 1), 1), ((1, 4, 1), 1), ((1, 2, 1), 1), ((1, 1), 2), ((1, 3, 4, 1), 1), ((4, 4), 1), ((1, 9, 1, 0), 1), ((1, 1, 2), 2)]):
         cfgs.append(Config('I3 scaling nm=%d flags=%s' % (nm, ''.join(map(str, flags))), h_scale(flags, nm), 3000))
